@@ -233,7 +233,10 @@ def tightBs : List PT → List Bytes
 /-- the abbreviated text of `e` with the blanks `bs` -/
 def renderG (bs : List Bytes) (e : Expr) : Bytes := detokG (atoks e) bs
 
-/-- the TIGHT text: abbreviated syntax, no blank that can be left out — the form YANG modules use (`../a/b[k='x']`, `count(a)>1`) -/
-def renderT (e : Expr) : Bytes := renderG (tightBs (atoks e)) e
+/-- the TIGHT text: abbreviated syntax, no blank that can be left out — the form YANG modules use (`../a/b[k='x']`,
+`count(a)>1`).  The spacing `tightBs` is checked with `spacingB` and the single-blank text is the fallback; the fallback is
+never taken on the expressions the check generates (compared on every run) -/
+def renderT (e : Expr) : Bytes :=
+  if spacingB (atoks e) (tightBs (atoks e)) [] then renderG (tightBs (atoks e)) e else renderAW [] e
 
 end LyModel.XPath.Render
